@@ -22,6 +22,8 @@ boolean / string / numeric expressions on which the C16 theorems turn and which 
     k_(e)gmap_default_units_to/_from  defaults of vrnt_genpos_units of the writers / readers (a default/default round trip mixes them)
     k_(e)gmap_ctor_passes_kind/_fill  does `__init__` hand self.spline_kind / self.spline_fill_value to build_spline?  + build_spline defaults
     k_egmap_default_name_col_to/_from, k_egmap_file_header, k_egmap_file_optional   column names written by to_egmap / expected by from_egmap
+  from_pandas of both map classes, DenseCoancestryMatrix, DenseBreedingValueMatrix
+    k_col_select          one row per `df[A] if isinstance(B, str) else df.iloc[:, C]` / `get_loc(A) if isinstance(B, str) else C`
   DenseTwoWayDHAdditiveGeneticVarianceMatrix
     k_vm_taxazfill, k_vm_traitzfill   ceil(log10(n)) + 1
     k_vm_columns          to_pandas: output column -> (label array, axis of flattenix(self.mat) that indexes it), in column order
@@ -382,6 +384,39 @@ def gmap_api_kernels(repo, defs):
                              "from_egmap: the optional columns 4 and 5 are read only if the header has these names"))
 
 
+# ------------------------------------------------------------------------------------------------ column selection of the table readers
+READERS_BY_COL = (("StandardGeneticMap", SGM, True), ("ExtendedGeneticMap", EGM, True),
+                  ("DenseCoancestryMatrix", "pybrops/popgen/cmat/DenseCoancestryMatrix.py", False),
+                  ("DenseBreedingValueMatrix", "pybrops/popgen/bvmat/DenseBreedingValueMatrix.py", False))
+def colsel_kernels(repo, defs):
+    """every `X = df[A] if isinstance(B, str) else df.iloc[:, C]` and `X = df.columns.get_loc(A) if isinstance(B, str) else C` of the
+    from_pandas readers -> one row (reader, X, A, B, C); any other conditional on isinstance(_, str) in these readers is refused"""
+    rows = []
+    for cls, rel, named in READERS_BY_COL:
+        fn = P.find_function(repo, rel, cls + ".from_pandas")
+        for n in ast.walk(fn):
+            if not (isinstance(n, ast.IfExp) and isinstance(n.test, ast.Call) and src(n.test.func) == "isinstance" and len(n.test.args) == 2 and src(n.test.args[1]) == "str"):
+                continue
+            b = src(n.test.args[0]); body, orelse = n.body, n.orelse
+            if isinstance(body, ast.Subscript) and src(body.value) == "df" and isinstance(orelse, ast.Subscript) and src(orelse.value) == "df.iloc" \
+                    and isinstance(orelse.slice, ast.Tuple) and len(orelse.slice.elts) == 2 and src(orelse.slice.elts[0]) == ":":
+                a, c = src(body.slice), src(orelse.slice.elts[1]); form = "series"
+            elif isinstance(body, ast.Call) and src(body.func) in ("df.columns.get_loc", "taxa_col_pdi.get_loc") and len(body.args) == 1:
+                a, c = src(body.args[0]), src(orelse); form = "index"
+            else:
+                raise U("%s.from_pandas: unrecognised column selection %s" % (cls, src(n)))
+            tgt = None
+            for st in ast.walk(fn):
+                if isinstance(st, ast.Assign) and st.value is n: tgt = src(st.targets[0])
+            rows.append((cls, tgt or "<inline>", form, a, b, c, named and tgt is not None))
+    if len(rows) < 12: raise U("column-selection table: only %d rows found" % len(rows))
+    term = "[" + ";\n   ".join('("%s"%%string, "%s"%%string, "%s"%%string, "%s"%%string, "%s"%%string, %s)' % (r[0], r[1], r[3], r[4], r[5], "true" if r[6] else "false") for r in rows) + "]"
+    defs.append(P.definition("k_col_select", [], "list (String.string * String.string * String.string * String.string * String.string * bool)", term,
+                             "from_pandas readers: (class, variable assigned, column given by NAME, variable tested by isinstance(_, str), column given by POSITION, "
+                             "is the variable named <field> and the argument <field>_col?)"))
+    return len(rows)
+
+
 # ------------------------------------------------------------------------------------------------ variance matrices (long table)
 def vm_kernels(repo, defs):
     cls = "DenseTwoWayDHAdditiveGeneticVarianceMatrix"
@@ -483,9 +518,10 @@ def translate(repo, gen_dir, classes):
     nsites = slash_kernel(classes, defs)
     gmap_kernels(repo, defs)
     gmap_api_kernels(repo, defs)
+    ncol = colsel_kernels(repo, defs)
     vm_kernels(repo, defs)
     text = (P.HEADER % "harness/translate/c16_kernel.py") + \
         "From Coq Require Import ZArith Bool List String PrimFloat.\nImport ListNotations.\nLocal Open Scope Z_scope.\n\n" + "\n".join(defs)
     path = os.path.join(gen_dir, "C16_Kernel.v")
     P.write_if_changed(path, text)
-    return {"file": "Gen/C16_Kernel.v", "definitions": len(defs), "slash_sites": nsites, "sha256": hashlib.sha256(text.encode()).hexdigest()[:16]}
+    return {"file": "Gen/C16_Kernel.v", "definitions": len(defs), "slash_sites": nsites, "column_selections": ncol, "sha256": hashlib.sha256(text.encode()).hexdigest()[:16]}
